@@ -125,3 +125,65 @@ Proof.
   - intros Hb Np. destruct (peval_exact_float_lemma p zs x xz Hp Hx Np (eval_fits_of_bounds zs xz al A0 Hz Hb))
       as (r & Er & Rr & _). eauto.
 Qed.
+
+(* ---------------------------------------------------------------- the additive evaluation laws from the input bounds *)
+Lemma geom_S n xi : geom (S n) xi = 1 + xi * geom n xi.
+Proof. reflexivity. Qed.
+
+Lemma geom_mono n m xi : 0 <= xi -> (n <= m)%nat -> geom n xi <= geom m xi.
+Proof.
+  intros X0. revert m. induction n as [|n IH]; intros m Hm.
+  - change (geom 0 xi) with 0. now apply geom_nonneg.
+  - destruct m as [|m]; [lia|]. rewrite !geom_S. specialize (IH m ltac:(lia)).
+    pose proof (Z.mul_le_mono_nonneg_l _ _ xi X0 IH). lia.
+Qed.
+
+Lemma geom_ge1 n xi : 0 <= xi -> (1 <= n)%nat -> 1 <= geom n xi.
+Proof.
+  intros X0 Hn. destruct n as [|n]; [lia|]. rewrite geom_S.
+  pose proof (Z.mul_nonneg_nonneg _ _ X0 (geom_nonneg n xi X0)). lia.
+Qed.
+
+Lemma bnd_mono (M M' : Z) l : M <= M' -> bnd M l -> bnd M' l.
+Proof. intros H. apply Forall_impl. intros a Ha. cbv beta in *. lia. Qed.
+
+Lemma peval_padd_psub_exact_float_bounds_lemma (p q : list PrimFloat.float) (zs ws : list Z) x xz al be :
+  Forall2 Exact p zs -> Forall2 Exact q ws -> ExactW x xz -> p <> [] -> q <> [] ->
+  0 <= al -> 0 <= be -> bnd al zs -> bnd be ws ->
+  (al + be) * geom (Nat.max (length zs) (length ws)) (Z.abs xz) < 2 ^ 53 ->
+  exists rp rq, peval (A := AF) p x = Ok rp /\ peval (A := AF) q x = Ok rq /\
+    peval (A := AF) (padd (A := AF) p q) x = Ok (rp + rq)%float /\
+    peval (A := AF) (psub (A := AF) p q) x = Ok (rp - rq)%float /\
+    Exact rp (horner (A := AZ) zs xz) /\ Exact rq (horner (A := AZ) ws xz).
+Proof.
+  intros Hp Hq Hx Np Nq A0 B0 Hz Hw Hb.
+  pose proof (F2_nonempty _ _ _ Hp Np) as Nz. pose proof (F2_nonempty _ _ _ Hq Nq) as Nw.
+  pose proof (Z.abs_nonneg xz) as X0.
+  set (n := Nat.max (length zs) (length ws)) in *.
+  assert (Ln : (1 <= length zs)%nat) by (destruct zs; [congruence|cbn; lia]).
+  pose proof (geom_ge1 n (Z.abs xz) X0 ltac:(lia)) as G1.
+  pose proof (geom_mono (length zs) n (Z.abs xz) X0 ltac:(lia)) as Gz.
+  pose proof (geom_mono (length ws) n (Z.abs xz) X0 ltac:(lia)) as Gw.
+  pose proof (geom_nonneg (length zs) (Z.abs xz) X0) as Gz0. pose proof (geom_nonneg (length ws) (Z.abs xz) X0) as Gw0.
+  assert (Hab : al + be < 2 ^ 53) by nia.
+  destruct (padd_fits_of_bounds zs ws al be A0 B0 Hz Hw Hab) as [Fa Fs].
+  assert (Ez : eval_fits zs xz) by (apply (eval_fits_of_bounds zs xz al A0 Hz); nia).
+  assert (Ew : eval_fits ws xz) by (apply (eval_fits_of_bounds ws xz be B0 Hw); nia).
+  pose proof (Forall_cb _ _ A0 Hz) as Cz. pose proof (Forall_cb _ _ B0 Hw) as Cw.
+  assert (Ba : bnd (al + be) (padd (A := AZ) zs ws)).
+  { apply cb_Forall. intros k. rewrite AZ_nth_padd. specialize (Cz k). specialize (Cw k). lia. }
+  assert (Bs : bnd (al + be) (psub (A := AZ) zs ws)).
+  { apply cb_Forall. intros k. rewrite AZ_nth_psub. specialize (Cz k). specialize (Cw k). lia. }
+  assert (Ea : eval_fits (padd (A := AZ) zs ws) xz).
+  { apply (eval_fits_of_bounds _ xz (al + be) ltac:(lia) Ba).
+    pose proof (length_padd (A := AZ) zs ws) as L. change (@length (T AZ)) with (@length Z) in L. rewrite L. exact Hb. }
+  assert (Es : eval_fits (psub (A := AZ) zs ws) xz).
+  { apply (eval_fits_of_bounds _ xz (al + be) ltac:(lia) Bs).
+    pose proof (length_psub (A := AZ) zs ws) as L. change (@length (T AZ)) with (@length Z) in L. rewrite L. exact Hb. }
+  destruct (peval_padd_exact_float_lemma p q zs ws x xz Hp Hq Hx Np Nq Fa Ez Ew Ea)
+    as (rp & rq & Ep & Eq & Eadd & Rp & Rq & _).
+  destruct (peval_psub_exact_float_lemma p q zs ws x xz Hp Hq Hx Np Nq Fs Ez Ew Es)
+    as (rp' & rq' & Ep' & Eq' & Esub & _).
+  rewrite Ep in Ep'. rewrite Eq in Eq'. injection Ep' as <-. injection Eq' as <-.
+  exists rp, rq. repeat (split; [assumption|]). assumption.
+Qed.
